@@ -30,6 +30,9 @@ type opReq struct {
 	FailAt   int      `json:"fail_at,omitempty"`  // k-th page read of this op fails
 	FailMode string   `json:"fail_mode,omitempty"`
 	LockFail bool     `json:"lock_fail,omitempty"`
+	NoLock   bool     `json:"no_lock,omitempty"` // low level op inside an explicit rlock ... runlock bracket
+	Off      int64    `json:"off,omitempty"`    // op "patch": write Hex at this file offset
+	Hex      string   `json:"hex,omitempty"`
 	Digest   bool     `json:"digest,omitempty"` // report sha1 of each row instead of the values
 	NoRows   bool     `json:"no_rows,omitempty"`
 }
@@ -168,6 +171,10 @@ func runOp(h *handle, r *opReq) (res opRes) {
 	hl := func(row sqlittle.Row) bool { return c.row([]interface{}(row)) }
 	hlv := func(row sqlittle.Row) { c.row([]interface{}(row)) }
 	lowLocked := func(f func() error) {
+		if r.NoLock {
+			setErr(f())
+			return
+		}
 		if err := h.db.RLock(); err != nil {
 			setErr(err)
 			return
@@ -211,6 +218,10 @@ func runOp(h *handle, r *opReq) (res opRes) {
 		setErr(err)
 		res.Extra = cols
 	// ---- low level API (explicit RLock/RUnlock as documented)
+	case "rlock":
+		setErr(h.db.RLock())
+	case "runlock":
+		setErr(h.db.RUnlock())
 	case "tables":
 		lowLocked(func() error { t, err := h.db.Tables(); res.Extra = t; return err })
 	case "indexes":
@@ -381,6 +392,24 @@ func cmdOps(args []string) int {
 		var kept *handle
 		for i := range b.Ops {
 			r := &b.Ops[i]
+			if r.Op == "patch" {
+				// environment step: overwrite bytes of the database file (another writer's effect)
+				res := opRes{ID: r.ID, Op: r.Op}
+				data, err := hex.DecodeString(r.Hex)
+				if err == nil {
+					var f *os.File
+					f, err = os.OpenFile(b.DB, os.O_WRONLY, 0)
+					if err == nil {
+						_, err = f.WriteAt(data, r.Off)
+						f.Close()
+					}
+				}
+				if err != nil {
+					res.Err = err.Error()
+				}
+				enc.Encode(res)
+				continue
+			}
 			var h *handle
 			if b.Mode == "keep" && kept != nil {
 				h = kept
